@@ -434,7 +434,9 @@ namespace hv
         static void eval(In<"e", TS<NodeError>> e, Scalar<"uid", Int> uid, NodeView nv, DateTime now)
         {
             std::string msg = e.base().value().as_bundle().at("error_msg").checked_as<Str>();
-            Line("u.err").i(uid.value()).i(gid_of(nv.graph())).i((long long)nv.node_index()).t(now).i(e.modified() ? 1 : 0).s(msg);
+            // the complete error value too: its level of detail is part of the observable output
+            Line("u.err").i(uid.value()).i(gid_of(nv.graph())).i((long long)nv.node_index()).t(now).i(e.modified() ? 1 : 0).s(msg)
+                .s(e.base().value().to_string());
         }
     };
 
